@@ -154,6 +154,21 @@ def discharge(site, ts, ex):
             if r is None:
                 return None, "slice end %s is not provably <= len(%s)" % (show(leaf)[:80], buf)
             rules.add(r)
+        upper = ops.get("upper")
+        if upper is not None:
+            # split_at(mid) of the sub-slice [start, upper): needs mid <= upper, not only mid <= len
+            upper = simp(upper, facts)
+            ok_up = upper == end or (isinstance(upper, tuple) and upper[0] == "len" and buffer_of_len(upper) == buf) \
+                or (upper[0] == "pre" and upper[1].split(".")[-1] in ts.len_fields)
+            if not ok_up and ts.lockstep:
+                c, n = ts.lockstep
+                for lab, (fn, r) in ts.methods.items():
+                    if lab == site["fn"] and end in (r["heap"].get("self." + c), ("pre", "self." + c)) and upper in (r["heap"].get("self." + n), ("pre", "self." + n)) \
+                            and (end == r["heap"].get("self." + c)) == (upper == r["heap"].get("self." + n)):
+                        ok_up = True
+            if not ok_up:
+                return None, "split point %s is not provably <= the length %s of the slice being split" % (show(end)[:60], show(upper)[:60])
+            rules.add("R-split-within")
         if start == cu(0):
             return "R-slice-to(" + "+".join(sorted(rules)) + ")", ""
         # start > 0: need start <= end. lockstep rule
@@ -169,6 +184,68 @@ def discharge(site, ts, ex):
     return None, "unknown site kind"
 
 
+def contradicts_invariants(facts, ts):
+    """does the set of branch facts contradict the typestate invariants of the struct (cursor < period, counter <= period,
+    len(buffer) = period — the latter already rewritten away, leaving x == x)?  Returns a description or None."""
+    if not ts.len_fields:
+        return None
+    pp = ("pre", "self." + list(ts.len_fields)[0])
+    curs = {("pre", "self." + c) for c in ts.cursors}
+    cnts = {("pre", "self." + n) for n, (pf, bd) in ts.counters.items() if bd == "P"}
+    for a, v in facts.items():
+        if not isinstance(a, tuple):
+            continue
+        if a[0] == "==" and a[1] == a[2] and v is False:
+            return "x == x cannot be false (len(buffer) = period)"
+        if a[0] == "<" and a[1] in curs and a[2] == pp and v is False:
+            return "cursor < period"
+        if a[0] == "<=" and a[1] == pp and a[2] in curs and v is True:
+            return "cursor < period"
+        if a[0] == "<=" and a[1] in cnts | curs and a[2] == pp and v is False:
+            return "counter <= period"
+        if a[0] == "<" and a[1] == pp and a[2] in cnts | curs and v is True:
+            return "counter <= period"
+    return None
+
+
+def infeasible_panic(f, blk, sites):
+    """every recorded branch into the panicking region that contains block `blk` contradicts an invariant -> rule text, else None"""
+    if not sites:
+        return None
+
+    def reach(src):
+        seen, work = set(), [src]
+        while work:
+            x = work.pop()
+            if x in seen or x not in f.block_by_id:
+                continue
+            seen.add(x)
+            t = f.block_by_id[x]["term"]
+            for key in ("target", "otherwise", "unwind"):
+                if isinstance(t.get(key), int):
+                    work.append(t[key])
+            for v_, tg in t.get("targets", []) or []:
+                work.append(int(tg))
+        return seen
+    rel = [(s_, ts_) for s_, ts_ in sites if blk in reach(s_["target"])]
+    if not rel:
+        return None
+    reasons = set()
+    from terms import lit
+    import typestate as _ty
+    for s_, ts_ in rel:
+        facts = dict(s_["facts"])
+        c = s_["operands"]["cond"]
+        if isinstance(c, tuple) and c and c[0] != "gamma":
+            a, pol = lit(c)
+            facts[a] = pol
+        why = contradicts_invariants(facts, ts_)
+        if why is None:
+            return None
+        reasons.add(why)
+    return "R-invariant-assert: the branch into the panic is infeasible (%s)" % "; ".join(sorted(reasons))
+
+
 NO_UNSAFE = [False]
 
 
@@ -180,6 +257,7 @@ def apply(F, S, extra=None):
                     and not any(i["unsafe"] and hand_written(i["span"]) for i in a_["impls"]))
     counts = {"assert": 0, "slice-index": 0}
     visited = set()
+    diverge = {}   # fn path -> [(diverge-edge site, typestate)]
     evaluated = 0
     loops = 0
     # P1 + slice-index part of P2: evaluate every hand-written, non-constructor function
@@ -213,14 +291,19 @@ def apply(F, S, extra=None):
             S.ok("P3", "%s bb%d" % (f.label, h), driver="Iterator::next on Range/slice::Iter/Enumerate; the None edge leaves the loop")
         ex = r["exec"]
         for site in ex.sites:
+            if site["what"] == "diverge-edge":
+                g_ = F.fn_by_path.get(site["path"])
+                ts_ = tss.get(g_.self_struct) if g_ is not None and g_.self_struct else None
+                diverge.setdefault(site["path"], []).append((site, ts_ or ts or typestate.StructTS("?")))
+                continue
             if site["what"] not in ("assert", "slice-index"):
                 continue  # f64 division / sqrt never panic (C08/C09 look at them)
             if site["path"] != f.path:
                 # site inside an inlined helper: attribute to that helper's struct
                 g = F.fn_by_path.get(site["path"])
                 ts_site = tss.get(g.self_struct) if g is not None else None
-                if ts_site is None and g is not None and g.path in F.helpers():
-                    ts_site = ts  # free helper inlined into a method: its operands are the caller's state
+                if ts_site is None and g is not None and (g.path in F.helpers() or g.kind == "Closure"):
+                    ts_site = ts  # free helper / closure inlined into a method: its operands are the caller's state
             else:
                 ts_site = ts
             key = (site["path"], site["block"], site["what"], site["kind"], site["span"]["line"], site["span"]["col"])
@@ -278,6 +361,12 @@ def apply(F, S, extra=None):
             if cls == "may_panic" and fam == "unwrap" and f.path in defaults_ok:
                 S.ok("P2", inst, discharged_by="R-default: the constructor, evaluated on the default constants, returns Ok on every path")
                 continue
+            if cls == "may_panic" and fam == "panic":
+                bid = b["id"] if isinstance(b, dict) else b
+                why = infeasible_panic(f, bid, diverge.get(f.path, []))
+                if why:
+                    S.ok("P2", "%s bb%s" % (inst, bid), discharged_by=why)
+                    continue
             S.bad("P2", "panicking-callee", "%s->%s" % (f.label, callees.strip_turbofish(name)), "%s calls %s (%s/%s): it can panic or is unclassified, and no rule discharges it" % (f.label, name, cls, fam), loc(t["span"]))
     cyc = callgraph.has_cycle(F)
     if cyc:
